@@ -132,6 +132,9 @@ class TEngine(pyvc.Engine):
 
     def at_return(self, st, res):
         self.__dict__.setdefault('exits', []).append(('return', list(st.pc)))
+        for x in (res if isinstance(res, tuple) else (res,)):
+            if isinstance(x, z3.ExprRef) and x.sort() == pyvc.U and z3.is_const(x) and re.match(r'(fstring|unmodelled_)', x.decl().name()):
+                self.opaque_result = x.decl().name()
         return super().at_return(st, res)
 
     def at_raise(self, st, exc):
@@ -194,9 +197,21 @@ def load_native(src, tmpdir, tag):
 
 
 def run_native(mod, fname, inp, mode):
+    """-> (outcome, number of probe calls, model assumption violated, lines at which an exception was raised or passed through)"""
     mod._MODE = mode or 'count'
     del mod._CALLS[:]
     del mod._VIOL[:]
+    exc_lines = set()
+    fn_file = mod.__file__
+
+    def tracer(frame, event, arg):
+        if frame.f_code.co_filename != fn_file:
+            return None
+        if event == 'exception':
+            exc_lines.add(frame.f_lineno)
+        return tracer
+
+    sys.settrace(tracer)
     try:
         v = getattr(mod, fname)(*inp)
         out = ('value', v)
@@ -206,7 +221,9 @@ def run_native(mod, fname, inp, mode):
         out = ('skip', 'RecursionError')
     except BaseException as e:  # noqa: BLE001
         out = ('raise', type(e).__name__)
-    return out, len(mod._CALLS), bool(mod._VIOL)
+    finally:
+        sys.settrace(None)
+    return out, len(mod._CALLS), bool(mod._VIOL), exc_lines
 
 
 # ---------------------------------------------------------------------------------------------
@@ -333,7 +350,7 @@ def norm_reason(s):
     return s[:110]
 
 
-def classify_input(case, inp, native, ncalls):
+def classify_input(case, inp, native, ncalls, exc_lines=()):
     """-> (class, detail)"""
     src = case['src']
     try:
@@ -356,10 +373,20 @@ def classify_input(case, inp, native, ncalls):
     b_ok = not b_bad
     unmodelled = [a for a in ra['assumptions'] if 'unmodelled call' in a]
     short = lambda xs: ', '.join('%s=%s' % (n.split('/', 2)[-1], s) for n, k, s in xs[:4])
+    # The engine turns some exceptions into safety obligations (divisor non-zero, index in range, key present, ...) instead of
+    # exception paths: it DEMANDS that the exception cannot happen and says nothing about what follows.  When such an obligation
+    # fails at a line where CPython really raised an exception in this run, engine and CPython agree that the exception happens;
+    # the demand (even if the program catches the exception) is the engine's documented strictness, not a false alarm.
+    strict = [n for n, k, s in a_bad if k == 'safety' and s == 'failed' and re.search(r'@L(\d+)', n) and int(re.search(r'@L(\d+)', n).group(1)) in exc_lines]
+    if strict and not b_ok:
+        return 'AGREE', 'strict-safety: %s fails where CPython raises' % strict[0].split('/', 2)[-1]
     if b_ok:
         return 'UNSOUND', 'engine proves the negation of the CPython outcome %r (count %s); truth contract: %s' % (native, ncalls, 'also proved (empty path set)' if a_ok else short(a_bad))
     if a_ok:
         return 'AGREE', ''
+    opaque = getattr(ra['eng'], 'opaque_result', None)
+    if opaque and not [x for x in a_bad if not x[0].split('/', 2)[-1].startswith('post/value')]:
+        return 'REFUSED', 'value havocked by design: %s' % re.sub(r'!\d+', '', opaque)
     if unmodelled:
         return 'REFUSED', 'unmodelled call recorded: %s' % unmodelled[0].split('unmodelled call', 1)[1].strip()[:60]
     if a_unknown and len(a_unknown) == len(a_bad):
@@ -456,7 +483,7 @@ def run_case(idx):
             if case.get('spec') is not None:
                 # three-way: the closed form is also evaluated by this tool on concrete inputs
                 for inp in case['inputs']:
-                    native, _, _ = run_native(mod, 'f', inp, None)
+                    native, _, _, _ = run_native(mod, 'f', inp, None)
                     want = case['spec_py'](dict(zip([p for p, _ in case['params']], inp)))
                     if native != ('value', want):
                         out.update(cls='REFUSED', detail='harness: closed form disagrees with CPython on %r: %r vs %r' % (inp, native, want))
@@ -466,13 +493,15 @@ def run_case(idx):
                 worst, wdetail = cls, detail
             n_run = 0
             for inp in case['inputs']:
-                native, ncalls, viol = run_native(mod, case.get('fname', 'f'), inp, case.get('probe'))
+                native, ncalls, viol, exc_lines = run_native(mod, case.get('fname', 'f'), inp, case.get('probe'))
                 if native[0] == 'skip':
                     continue
                 if viol:
                     continue  # the model's assumption about the argument does not hold in this run: nothing to compare
                 n_run += 1
-                cls, detail = classify_input(case, inp, native, ncalls)
+                cls, detail = classify_input(case, inp, native, ncalls, exc_lines)
+                if detail.startswith('strict-safety'):
+                    out['strict'] = out.get('strict', 0) + 1
                 out['inputs'].append({'input': list(inp), 'native': [native[0], repr(native[1])], 'ncalls': ncalls, 'cls': cls, 'detail': detail})
                 if ORDER[cls] > ORDER[worst] or (cls == worst and not wdetail):
                     worst, wdetail = cls, ('input %r: ' % (inp,) + detail) if detail else ''
